@@ -187,6 +187,7 @@ def _maps(R, unit, only):
         try:
             clr = cooler.Cooler(p)
             bs, bo = snapshot(p), observe(clr)
+            early = (clr.bins(), clr.pixels(), clr.matrix(balance=False), clr.bins()[["start", "end"]])     # taken before the rename
             try:
                 # the map is given with its entries in REVERSED table order (entries must be matched by key), and the very same dict
                 # object is first offered to another cooler that has none of these chromosomes (a no-op there)
@@ -196,7 +197,23 @@ def _maps(R, unit, only):
             except Exception as e:
                 R.mismatch("rename-raises:" + type(e).__name__, inner, f"{e!s:.200}")
                 continue
-            check_after(R, inner, p, clr, bs, bo, names, [d.get(x, x) for x in names])
+            newn = [d.get(x, x) for x in names]
+            check_after(R, inner, p, clr, bs, bo, names, newn)
+            # selectors of the same object that were obtained before the rename answer name-based lookups with the new names too
+            try:
+                for ci, nm in enumerate(newn):
+                    want = bo["regions"][(ci, "whole")]
+                    b = early[0].fetch(nm)
+                    px = early[1].fetch(nm)
+                    mx = early[2].fetch(nm)
+                    b2 = early[3].fetch(nm)
+                    lo, hi = want[0]
+                    if list(b.index) != list(range(lo, hi)) or list(b2.index) != list(range(lo, hi)) or mx.tolist() != want[1] or \
+                            (len(px) and not set(px["bin1_id"].tolist()) <= set(range(lo, hi))):
+                        R.mismatch("earlier-selector-lookup-under-new-name!=old-name-before", inner, f"chrom #{ci} {nm}: bins index {list(b.index)} want {lo}..{hi}")
+                        break
+            except Exception as e:
+                R.mismatch("earlier-selector-lookup-raises:" + type(e).__name__, inner, f"{e!s:.200}")
         finally:
             scratch.rm(p)
     R.sample({"leg": "maps", "names": names, "maps": [m for m, _ in maps[:4]], "enc": unit["enc"]})
